@@ -57,15 +57,24 @@ func init() {
 			// which top-level collection fields does ListFiles range over, reading .URI inside?
 			covered := map[string]bool{}
 			// every loop (range or counted) over a field of the document whose body reads .URI
-			var srcField *types.Var
+			// the collection a loop visits: a field of the document, or all its rows in one sequence
+			// (slices.Concat(doc.Levels...))
+			collField := func(e ast.Expr) *types.Var {
+				if v := prog.SelField(info, e); v != nil {
+					return v
+				}
+				if c, ok := isCallToNamed(info, deref(info, e), "slices", "Concat"); ok && len(c.Args) == 1 && c.Ellipsis.IsValid() {
+					return prog.SelField(info, c.Args[0])
+				}
+				return nil
+			}
 			for _, lp := range fullLoopsOver(info, f.Decl.Body, func(e ast.Expr) bool {
-				srcField = prog.SelField(info, e)
-				return srcField != nil
+				return collField(e) != nil
 			}) {
 				var fld *types.Var
 				switch x := lp.Stmt.(type) {
 				case *ast.RangeStmt:
-					fld = prog.SelField(info, x.X)
+					fld = collField(x.X)
 				case *ast.ForStmt:
 					if b, ok := ast.Unparen(x.Cond).(*ast.BinaryExpr); ok {
 						inspect(b.Y, func(m ast.Node) bool {
@@ -441,6 +450,14 @@ func (r *Run) checkCopyDirection(f *prog.FuncInfo, copyFn *types.Func, toArtifac
 			def := resolveLocal(info, f.Decl.Body, other)
 			_, isJoin := isCallToNamed(info, def, "path/filepath", "Join")
 			if !isJoin {
+				// built in an extracted helper: follow the value to the call that produced it
+				if oc, _ := valueOrigin(info, other, 0); oc != nil {
+					if _, ok := isCallToNamed(info, oc, "path/filepath", "Join"); ok {
+						def, isJoin = oc, true
+					}
+				}
+			}
+			if !isJoin {
 				r.Fail(f.Name()+":artifact-path", call.Pos(), nil, "the artifact-side path of the copy is not built with filepath.Join(<savepoint dir>, \"dkv\", <operator>, <file>)")
 			} else {
 				// the operator prefix and the base name in the artifact path are BOTH the
@@ -453,7 +470,7 @@ func (r *Run) checkCopyDirection(f *prog.FuncInfo, copyFn *types.Func, toArtifac
 						return false
 					}
 					if as, ok := k.(*ast.AssignStmt); ok && len(as.Lhs) == 3 && len(as.Rhs) == 1 {
-						if pc, ok := ast.Unparen(as.Rhs[0]).(*ast.CallExpr); ok && r.P.CalleeFunc(info, pc) == parse && len(pc.Args) == 1 && prog.IdentObj(info, pc.Args[0]) == fileVar {
+						if pc, ok := ast.Unparen(as.Rhs[0]).(*ast.CallExpr); ok && r.P.CalleeFunc(info, pc) == parse && len(pc.Args) == 1 && derefObj(info, pc.Args[0]) == fileVar {
 							pfx, base = prog.IdentObj(info, as.Lhs[0]), prog.IdentObj(info, as.Lhs[1])
 						}
 					}
